@@ -314,3 +314,162 @@ def fn_consts_in_body(body):
                 c = o.get('const')
                 if c and 'fn' in c:
                     yield c['fn'], t.get('sp')
+
+
+# ---------------------------------------------------------------------------
+# liveness of locals (used by the coroutine rules: which locals carry state around a loop)
+
+_SKIP_KEYS = ('sp', 'ty', 'from', 'f', 'msg_sp')
+
+
+def _place_locals(p, out):
+    out.add(p['l'])
+    for e in p.get('p') or ():
+        if isinstance(e, dict):
+            for k in ('l', 'local'):
+                if k in e and isinstance(e[k], int) and e.get('k') == 'index':
+                    out.add(e[k])
+
+
+def _uses(x, out):
+    """locals read anywhere inside an rvalue / operand / terminator field"""
+    if isinstance(x, dict):
+        if 'copy' in x or 'move' in x:
+            _place_locals(x.get('copy') or x.get('move'), out)
+            return
+        if 'l' in x and isinstance(x['l'], int) and ('p' not in x or isinstance(x['p'], list)) and set(x) <= {'l', 'p'}:
+            _place_locals(x, out)
+            return
+        for k, v in x.items():
+            if k in _SKIP_KEYS:
+                continue
+            _uses(v, out)
+    elif isinstance(x, list):
+        for v in x:
+            _uses(v, out)
+
+
+def _def_of(place):
+    """local wholly (re)defined by an assignment to `place`, or None (a projection: the base is read, not killed)"""
+    if place is not None and not place.get('p'):
+        return place['l']
+    return None
+
+
+def block_use_def(blk):
+    """(use, defs) of a block for backward liveness: use = read before any whole definition in the block"""
+    use, defs = set(), set()
+
+    def rd(locals_):
+        for l in locals_:
+            if l not in defs:
+                use.add(l)
+    for s in blk['s']:
+        k = s['k']
+        if k == 'assign':
+            u = set()
+            _uses(s['r'], u)
+            d = _def_of(s['p'])
+            if d is None:
+                _place_locals(s['p'], u)
+            rd(u)
+            if d is not None:
+                defs.add(d)
+        elif k in ('live', 'dead'):
+            continue
+        else:
+            u = set()
+            _uses(dict((k_, v) for k_, v in s.items() if k_ != 'k'), u)
+            rd(u)
+    t = blk['t']
+    u = set()
+    dest = None
+    for k_, v in t.items():
+        if k_ in ('k', 'sp', 't', 'u', 'o', 'vs', 'dty', 'drop', 'needs_drop', 'ty', 'e'):
+            continue
+        if k_ == 'dest' or (k_ == 'arg' and t['k'] == 'yield'):
+            dest = v
+            continue
+        if k_ == 'f':
+            # an indirect call reads its callee operand
+            if isinstance(v, dict) and ('copy' in v or 'move' in v):
+                _uses(v, u)
+            continue
+        _uses(v, u)
+    tdef = None
+    if dest is not None:
+        tdef = _def_of(dest)
+        if tdef is None:
+            _place_locals(dest, u)
+    rd(u)
+    return use, defs, tdef
+
+
+def liveness(body):
+    """bb -> set of locals that may be read after entry to bb before being wholly redefined; locals whose address is
+    taken are live whenever their storage may be live (a read through the reference does not mention the local)."""
+    blocks = body['blocks']
+    n = len(blocks)
+    ud = [block_use_def(b) for b in blocks]
+    succ = [term_succs(b['t'], include_unwind=False) for b in blocks]
+    live_in = [set() for _ in range(n)]
+    changed = True
+    while changed:
+        changed = False
+        for i in range(n - 1, -1, -1):
+            use, defs, tdef = ud[i]
+            out = set()
+            for s in succ[i]:
+                out |= live_in[s]
+            if tdef is not None:
+                out = out - {tdef}
+                # the terminator's own reads come before its definition; they are already in `use`
+            new = use | (out - defs)
+            if new != live_in[i]:
+                live_in[i] = new
+                changed = True
+    # address-taken locals
+    borrowed = set()
+    for b in blocks:
+        for s in b['s']:
+            if s['k'] == 'assign' and s['r'].get('rv') in ('ref', 'addr_of', 'rawptr', 'address_of'):
+                p = s['r'].get('p')
+                if p and not any(isinstance(e, dict) and e.get('k') == 'deref' for e in (p.get('p') or ())[:1]):
+                    borrowed.add(p['l'])
+    has_storage = set()
+    for b in blocks:
+        for s in b['s']:
+            if s['k'] in ('live', 'dead'):
+                has_storage.add(s['l'])
+    # forward may-analysis of storage liveness
+    st_in = [set() for _ in range(n)]
+    pred = [[] for _ in range(n)]
+    for i in range(n):
+        for s in succ[i]:
+            pred[s].append(i)
+    always = set(l for l in borrowed if l not in has_storage)
+
+    def transfer(i, cur):
+        cur = set(cur)
+        for s in blocks[i]['s']:
+            if s['k'] == 'live':
+                cur.add(s['l'])
+            elif s['k'] == 'dead':
+                cur.discard(s['l'])
+        return cur
+    changed = True
+    st_out = [set() for _ in range(n)]
+    while changed:
+        changed = False
+        for i in range(n):
+            cur = set()
+            for p in pred[i]:
+                cur |= st_out[p]
+            o = transfer(i, cur)
+            if cur != st_in[i] or o != st_out[i]:
+                st_in[i], st_out[i] = cur, o
+                changed = True
+    res = {}
+    for i in range(n):
+        res[i] = live_in[i] | (borrowed & st_in[i]) | always
+    return res
